@@ -314,10 +314,21 @@ class Interp:
 
     def run_function(self, st, f: FnVal, args, kwargs):
         node = f.ref.node
-        if any(isinstance(n, (ast.Yield, ast.YieldFrom)) for n in self._own_nodes(node)):
+        is_gen = any(isinstance(n, (ast.Yield, ast.YieldFrom)) for n in self._own_nodes(node))
+        if is_gen and not (getattr(f, "top_level", False) and getattr(getattr(self.task, "c", None), "generator_as_list", False)):
             raise Unsupported(f"generator function {f.ref.key}")
         frame = Frame(f, f.ref.mod, parent=f.closure)
         self.bind_params(st, f, frame, args, kwargs)
+        if is_gen:
+            # A generator function as the function under contract (opt-in: `generator_as_list = True`): what is verified
+            # is the generator RUN TO EXHAUSTION IN ONE GO -- `list(f(...))` -- i.e. no code of the consumer runs between two
+            # yields (so nothing the body reads changes under it), and an exception the body raises at any point counts
+            # as raised.  The values yielded so far are the ghost list `yielded_` (a local: loop invariants may speak
+            # about it, loops that yield list it in `LoopSpec.modifies`); list values are yielded BY VALUE (their
+            # content at the moment of the yield).  The result is that list; `return` inside the body ends it.
+            # Only statement-level `yield v` / `yield from iterable` are modelled (the value sent in is unused).
+            # Cross-check against CPython: spec/xcheck_cases.py x_generator (through its list() wrapper).
+            frame.locals["yielded_"] = LRef(())
         a = node.args
         if (a.posonlyargs or a.args) and f.defcls is not None:
             frame.self_obj = frame.locals.get((a.posonlyargs + a.args)[0].arg)
@@ -327,14 +338,14 @@ class Interp:
         try:
             self.exec_block(st, node.body, frame)
         except _Return as r:
-            return r.value
+            return frame.locals["yielded_"] if is_gen else r.value
         finally:
             self.call_depth -= 1
             if getattr(f, "top_level", False):
                 # ghost: the locals of the function under verification at its exit, so that a postcondition of the
                 # form "there is a column c such that ..." can name its witness (read-only, contract side)
                 st.ghost["exit_locals"] = dict(frame.locals)
-        return None
+        return frame.locals["yielded_"] if is_gen else None
 
     @staticmethod
     def _own_nodes(fn_node):
@@ -368,7 +379,24 @@ class Interp:
             return  # docstring
         if self._is_dropped_call(s.value):
             return
+        if isinstance(s.value, (ast.Yield, ast.YieldFrom)):
+            return self._yield(st, s.value, fr)
         self.eval(st, s.value, fr)
+
+    def _yield(self, st, e, fr):
+        """Statement-level `yield v` / `yield from it` in a generator run to exhaustion (see run_function)."""
+        f = fr
+        while f is not None and "yielded_" not in f.locals:
+            f = f.parent
+        if f is None or f.fn is None or f.fn.ref.node is not fr.fn.ref.node:
+            raise Unsupported("yield outside the generator function under contract")
+        out = f.locals["yielded_"]
+        if isinstance(e, ast.Yield):
+            v = st.force(self.eval(st, e.value, fr)) if e.value is not None else None
+            out.seq = Q.seq_append(out.seq, Q.row_value(v) if isinstance(v, LRef) else v)
+            return
+        it = self.iter_view(st, st.force(self.eval(st, e.value, fr)))
+        out.seq = Q.seq_concat(out.seq, it.seq if isinstance(it, LRef) else it)
 
     def _is_dropped_call(self, e):
         """logger.* / warnings.warn calls: dropped (arguments not evaluated) — see DESIGN §2.1."""
@@ -882,7 +910,7 @@ class Interp:
                     break
                 if i > self.max_unroll:
                     raise Unsupported("for loop unrolled beyond the limit")
-                self.assign_target(st, s.target, Q.seq_get(seq, i), fr)
+                self.assign_target(st, s.target, self._iter_elem(seq, i), fr)
                 i += 1
                 try:
                     self.exec_block(st, s.body, fr)
@@ -903,7 +931,7 @@ class Interp:
         self.assume_inv(st, spec, self.loop_view(fr, i, seq, entry))
         watched = self._watch_lists(s, spec, fr)
         if st.branch(V._cmp("<", i, n)):
-            elem = Q.seq_get(seq, i)
+            elem = self._iter_elem(seq, i)
             self.assign_target(st, s.target, elem, fr)
             mark = len(st.trace)
             st.ghost["loop_elem"] = elem
@@ -919,6 +947,14 @@ class Interp:
             self.check_inv(st, spec, self.loop_view(fr, i + 1, seq, entry, mark), f"{name}/inv-preserve")
             raise PathEnd()
         self.exec_block(st, s.orelse, fr)
+
+    @staticmethod
+    def _iter_elem(seq, i):
+        """Element i handed out by a `for` loop: a row of a nested list is a list (read-only view, see seqs.RowItem)."""
+        e = Q.seq_get(seq, i)
+        if Q.is_nested(seq.seq if isinstance(seq, LRef) else seq) and isinstance(e, SSeq):
+            return Q.RowItem(e)
+        return e
 
     def _entry_snapshot(self, fr):
         """Values at loop entry (before the havoc): locals, and a snapshot of `self`'s fields."""
@@ -1339,6 +1375,13 @@ class Interp:
             return V._cmp({ast.Lt: "<", ast.LtE: "<=", ast.Gt: ">", ast.GtE: ">="}[t], a, b)
         if a is None or b is None:
             raise PyRaise(SExc(TypeError, ("'<' not supported between instances of NoneType and int",)))
+        for x, y, refl in ((a, b, False), (b, a, True)):
+            # an ordering comparison with a modelled value (ModelObj): the model answers (`py_compare(ip, st, op, other,
+            # reflected)` -> a truth value, or raises the TypeError CPython raises, e.g. a modelled str against an int)
+            if isinstance(x, ModelObj) and hasattr(x, "py_compare"):
+                r = x.py_compare(self, st, op, y, refl)
+                if r is not NotImplemented:
+                    return r
         raise Unsupported(f"ordering comparison of {type(a).__name__} and {type(b).__name__}")
 
     def is_(self, st, a, b):
